@@ -906,6 +906,8 @@ LoadDocs ==
    \* two files that diverge below a non-splittable element (differently named XREF-TARGETs in one L-2); cf also brings a new package
    cd |-> DocOf("V50", <<PkgA(<<DescX("x")>>), DNamed("AR-PACKAGE", "b", <<>>)>>),
    cf |-> DocOf("V50", <<DNamed("AR-PACKAGE", "z", <<>>), PkgA(<<DescX("y")>>)>>),
+   \* mixed content: an inline element (to be merged with the XREF-TARGET that cd has in the same L-2)
+   mt |-> DocOf("V50", <<PkgA(<<DN("DESC", <<DX("L-2", <<[n |-> "L", v |-> EVal("EN")]>>, <<DL("TT", SVal("x"))>>)>>)>>)>>),
    \* one path defined as two kinds of elements inside one file
    dupk |-> DocOf("V50", <<PkgA(<<Els(<<Sys("s"), DNamed("I-SIGNAL", "s", <<>>)>>)>>)>>),
    \* an element that the file's own version does not have (accepted by a lenient load only), next to other children
